@@ -446,6 +446,28 @@ def _classify_write(prog, f, n, R, toupper_ok, ptr=None):
                         l_ = f.nodes[f.strip(x['ch'][0], 'all')]
                         if l_['k'] == 'ArraySubscriptExpr' and any(f.nodes[y]['k'] == 'DeclRefExpr' and f.nodes[y]['decl'].get('id') == m['decl']['id'] for y in f.descendants(l_['id'])):
                             filled = True
+                # filled only by assignments to constant positions: the positions never assigned are emitted as they were found on the stack
+                const_idx, other_fill = set(), False
+                N_ = int(am.group(2))
+                for x in f.nodes:
+                    if x['k'] in ('CallExpr', 'CXXMemberCallExpr', 'CXXOperatorCallExpr') and 'callee' in x and x['id'] != n['id']:
+                        for a in x.get('args', []):
+                            if any(f.nodes[y]['k'] == 'DeclRefExpr' and f.nodes[y]['decl'].get('id') == m['decl']['id'] for y in f.descendants(a)) and \
+                                    not (x['k'] == 'CXXMemberCallExpr' and x['callee']['name'] == 'write'):
+                                other_fill = True
+                    if x['k'] in ('BinaryOperator', 'CompoundAssignOperator') and x.get('op', '=') == '=':
+                        l_ = f.nodes[f.strip(x['ch'][0], 'all')]
+                        if l_['k'] == 'ArraySubscriptExpr' and any(f.nodes[y]['k'] == 'DeclRefExpr' and f.nodes[y]['decl'].get('id') == m['decl']['id'] for y in f.descendants(l_['id'])):
+                            ix_ = f.nodes[f.strip(l_['ch'][1], 'all')]
+                            if 'cv' in ix_:
+                                const_idx.add(int(ix_['cv']))
+                            else:
+                                other_fill = True
+                    if x['k'] == 'UnaryOperator' and x.get('op') == '&' and any(f.nodes[y]['k'] == 'DeclRefExpr' and f.nodes[y]['decl'].get('id') == m['decl']['id'] for y in f.descendants(x['id'])):
+                        other_fill = True
+                missing_ = sorted(set(range(N_)) - const_idx)
+                if filled and not other_fill and const_idx and missing_ and all(w.get((), 0) > min(missing_) * esz for w in widths if set(w.keys()) <= {()}) and all(set(w.keys()) <= {()} for w in widths):
+                    return 'violation', 'array', 'array `%s` has no initialiser; only position(s) %s are assigned before it is written, position(s) %s are emitted uninitialised' % (m['decl']['name'], sorted(const_idx), missing_)
                 if filled:
                     return 'undecided', 'array', 'array `%s` has no initialiser and is filled piecewise before it is written: that every byte is assigned is not decided' % m['decl']['name']
                 return 'violation', 'array', 'array `%s` has no initialiser' % m['decl']['name']
